@@ -335,8 +335,12 @@ cpdef double complex expect_super_dia(Dia op, Dia state) except *:
     for diag_op in range(op.num_diag):
       for diag_state in range(state.num_diag):
         if (
-            -state.offsets[diag_state] < op.shape[1]
+            state.offsets[diag_state] <= 0
+            and -state.offsets[diag_state] < op.shape[1]
             and -op.offsets[diag_op] - state.offsets[diag_state] >= 0
+            # Values stored for positions outside of the matrix are not part
+            # of it.
+            and -op.offsets[diag_op] - state.offsets[diag_state] < op.shape[0]
             and (-op.offsets[diag_op] - state.offsets[diag_state]) % stride == 0
         ):
             expect += state.data[diag_state * state.shape[1]] * op.data[diag_op * op.shape[1] - state.offsets[diag_state]]
